@@ -120,6 +120,13 @@ class Server:
         self.sent_texts.append(text)
         self.out += self.frame(text, chunk)
 
+    def push_raw_payload(self, payload):
+        """A correctly FRAMED message whose payload is not valid UTF-8."""
+        if self.base11:
+            self.out += b'\n#%d\n' % len(payload) + payload + b'\n##\n'
+        else:
+            self.out += payload + DELIM10
+
     def next_read(self, maxn=4096):
         n = len(self.out)
         if n == 0:
@@ -215,13 +222,19 @@ def explore(rng, transport, profile, flavor, runner_cls, max_cmds=70):
                 srv.notifs += 1
                 srv.push(notification_text(rng, srv.notifs))
             elif flavor in ('odd', 'fault'):
-                srv.push(rng.choice(ODD))
+                if rng.random() < 0.25:
+                    srv.push_raw_payload(b'<rpc-reply message-id="x" xmlns="%s"><data>\xff\xfe\xc3</data></rpc-reply>' % BASE_NS.encode())
+                    info['bad_utf8'] = True
+                else:
+                    srv.push(rng.choice(ODD))
         # client actions
         if finished and R.conn_result == 'ok' and not closed and rng.random() < 0.25 and n_req < 6:
             n_req += 1
             if flavor == 'fault' and rng.random() < 0.25 and not info.get('trap'):
                 info['trap'] = True
                 do(['trap'])
+            elif rng.random() < 0.2:
+                do(['sreq'])          # synchronous caller that times out; its reply may still arrive later
             else:
                 do(['req'])
             continue
@@ -256,6 +269,15 @@ def explore(rng, transport, profile, flavor, runner_cls, max_cmds=70):
         elif pk == 'read':
             if closed:
                 do(['w', 'eof'])
+            elif fault_budget and len(srv.out) > 0 and rng.random() < 0.2 and any(b >= 0x80 for b in srv.out):
+                # the peer goes away in the middle of a multi-byte character: hand over the bytes up to there, then EOF
+                i = next(k for k, b in enumerate(srv.out) if (b & 0xC0) == 0x80)
+                d = bytes(srv.out[:i])
+                del srv.out[:]
+                texts = srv.sent_texts[info.setdefault('_classified', 0):]
+                info['_classified'] = len(srv.sent_texts)
+                do(['w', d.hex(), list(texts) + [t.strip() for t in texts if t.strip() != t]])
+                info['eof_mid_char'] = True
             elif fault_budget and (len(srv.out) == 0 or rng.random() < 0.15):
                 fault_budget -= 1
                 f = rng.choice(['eof', 'err'])
@@ -274,6 +296,29 @@ def explore(rng, transport, profile, flavor, runner_cls, max_cmds=70):
             do(['w', None])
         else:
             break
+    # drain: let the client read everything the server has sent, so that 'lost' can be told from 'not yet read'
+    if finished and R.conn_result == 'ok' and not closed:
+        for _ in range(60):
+            pk = R.ctl.parked[0]
+            if pk == 'select':
+                if len(srv.out) == 0:
+                    break
+                do(['w', True])
+            elif pk == 'read':
+                if len(srv.out) == 0:
+                    break
+                d = srv.next_read()
+                texts = srv.sent_texts[info.setdefault('_classified', 0):]
+                info['_classified'] = len(srv.sent_texts)
+                do(['w', d.hex(), list(texts) + [t.strip() for t in texts if t.strip() != t]])
+            elif pk == 'ready':
+                do(['w', True])
+            elif pk == 'write':
+                do(['w', len(R.ctl.parked[1])])
+            elif pk == 'close':
+                do(['w', None])
+            else:
+                break
     if finished and R.conn_result == 'ok':
         for _ in range(srv.notifs + 1):
             do(['take'])
